@@ -38,15 +38,35 @@ PEq(a, b) ==
     IF a.t = "Var" THEN b.t = "Var" /\ a.name = b.name
     ELSE SameHead(a, b) /\ \A i \in 1..Len(KidsW(a)) : PEq(KidsW(a)[i], KidsW(b)[i])
 
-\* unify_map: None iff some common name is bound to different values
+\* Python's truth value of an expression tree (bool(e) = not is_zero(e)): numbers by value,
+\* and the __bool__ methods of Sum, Product and the quotient classes; everything else is true
+RECURSIVE TruthE(_)
+TruthE(e) ==
+    CASE e.t = "Const" -> e.v.n # 0
+      [] e.t = "Sum" -> IF Len(e.c) = 1 THEN TruthE(e.c[1]) ELSE TRUE
+      [] e.t = "Product" -> \A i \in 1..Len(e.c) : TruthE(e.c[i])
+      [] e.t \in {"Quotient", "FloorDiv", "Remainder"} -> TruthE(e.a)
+      [] OTHER -> TRUE
+IsZeroE(e) == ~TruthE(e)
+
+\* unify_map: None iff some common name is bound to different values ("name in map1" is a
+\* MEMBERSHIP test; Bug = "truthy" plants the classical slip of testing the known binding by
+\* its truth value instead: a falsy earlier binding then counts as absent and is overwritten)
 UnifyMapOK(m1, m2) ==
     CASE Bug = "consistency" -> TRUE                            \* clash check dropped
       [] Bug = "norepeat"    -> DOMAIN m1 \cap DOMAIN m2 = {}   \* repeated variable refused
+      [] Bug = "truthy"      -> \A n \in DOMAIN m1 \cap DOMAIN m2 :
+                                   TruthE(m1[n]) => PEq(m1[n], m2[n])
       [] OTHER -> \A n \in DOMAIN m1 \cap DOMAIN m2 : PEq(m1[n], m2[n])
+UnifyMapRes(m1, m2) ==    \* the merged table: map1's entries win
+    IF Bug = "truthy"
+    THEN [n \in DOMAIN m1 \cup DOMAIN m2 |->
+            IF n \in DOMAIN m1 /\ (n \notin DOMAIN m2 \/ TruthE(m1[n])) THEN m1[n] ELSE m2[n]]
+    ELSE m1 @@ m2
 \* UnificationRecord.unify -> << >> (None) or << record >>
 UnifyRec(u1, u2) ==
     IF UnifyMapOK(u1.l, u2.l) /\ UnifyMapOK(u1.r, u2.r)
-    THEN << URec(u1.l @@ u2.l, u1.r @@ u2.r) >> ELSE << >>
+    THEN << URec(UnifyMapRes(u1.l, u2.l), UnifyMapRes(u1.r, u2.r)) >> ELSE << >>
 UnifyMany(us, u) == ConcatAll([i \in 1..Len(us) |-> UnifyRec(us[i], u)])
 
 \* unification_record_from_equation -> << >> (None) or << record >>
@@ -60,14 +80,7 @@ RecFromEq(lhs, rhs, C) ==
 \* primitives.flattened_sum / flattened_product (the "factory")
 \* primitives.is_zero(e) = not bool(e), with the __bool__ methods of Sum, Product and the
 \* quotient classes (everything else is true); is_zero(e - 1) can only hold for a number
-RECURSIVE TruthE(_)
-TruthE(e) ==
-    CASE e.t = "Const" -> e.v.n # 0
-      [] e.t = "Sum" -> IF Len(e.c) = 1 THEN TruthE(e.c[1]) ELSE TRUE
-      [] e.t = "Product" -> \A i \in 1..Len(e.c) : TruthE(e.c[i])
-      [] e.t \in {"Quotient", "FloorDiv", "Remainder"} -> TruthE(e.a)
-      [] OTHER -> TRUE
-IsZeroE(e) == ~TruthE(e)
+\* (TruthE / IsZeroE are defined above, next to unify_map)
 IsOneE(e)  == e.t = "Const" /\ e.v.n = e.v.d
 Factory(kind, items) ==
     LET RECURSIVE Go(_, _)
